@@ -110,6 +110,18 @@ func (s *serverSocket) upgradeTo(t ServerTransport, c *transport.Callbacks) {
 	s.transportMu.Lock()
 	defer s.transportMu.Unlock()
 
+	// The socket might have been closed while the new transport was being probed.
+	// `close` closes `closeChan` before it takes `transportMu` to close the current transport,
+	// so either the closure is seen here, or `close` will see (and close) the new transport.
+	select {
+	case <-s.closeChan:
+		s.debug.Log("UpgradeTo", "socket is closed. Closing the new transport")
+		c.Set(nil, nil)
+		t.Close()
+		return
+	default:
+	}
+
 	old := s.transport
 	s.transport = t
 	old.Discard()
